@@ -111,7 +111,8 @@ def no_accidental(data, keys, want_off, key):
 
 
 N = 700 if TIER == "quick" else 20000
-tmpdir = tempfile.mkdtemp(prefix="c01-")
+import common as _common
+tmpdir = _common.mkdtemp("c01-")
 done = 0
 attempts = 0
 while done < N and attempts < 20 * N:
@@ -237,5 +238,5 @@ try:
     os.remove(os.path.join(tmpdir, "sample.bin"))
 except OSError:
     pass
-os.rmdir(tmpdir)
+_common.cleanup_tmp()
 emit([comp, c_multi])
